@@ -41,7 +41,10 @@ func DecodeURL(logger s3log.AuditLogger, mm *metrics.Manager) fiber.Handler {
 		if !backend.IsOpaqueIDValid(ctx.Query("versionId")) {
 			return controllers.SendResponse(ctx, s3err.GetAPIError(s3err.ErrInvalidVersionId), &controllers.MetaOpts{Logger: logger, MetricsMng: mm})
 		}
-		if !backend.IsOpaqueIDValid(ctx.Query("uploadId")) {
+		// an upload id names a directory of its own: the empty id would name
+		// the directory that holds the uploads of the key
+		emptyUploadId := ctx.Request().URI().QueryArgs().Has("uploadId") && ctx.Query("uploadId") == ""
+		if emptyUploadId || !backend.IsOpaqueIDValid(ctx.Query("uploadId")) {
 			return controllers.SendResponse(ctx, s3err.GetAPIError(s3err.ErrNoSuchUpload), &controllers.MetaOpts{Logger: logger, MetricsMng: mm})
 		}
 		ctx.Path(unescp)
